@@ -270,7 +270,7 @@ PROPS = {
     },
     "C12": {
         "level": "proof",
-        "lean_targets": ["LP.Props.C12", "LP.Props.C12Exact"],
+        "lean_targets": ["LP.Props.C12", "LP.Props.C12Exact", "LP.Props.C12Compl"],
         "harnesses": [{"name": "h_eval", "quick": 250, "thorough": 4000, "env": {"LPV_EVAL_MODE": "fs"}}],
         "select": lambda t: t[1] == "ev" and t[2] in ("fs", "rfs"),
         "nontrivial": lambda t, r: True,
